@@ -58,6 +58,7 @@ def run(ctx):
                           dict(kind=205, line=lines[i], case=sg.describe(cases[i]), fresh=a, reused=b))
     regex_cases(ctx, feat)
     inverted_partition(ctx, feat)
+    null_data_cli(ctx)
     cli_strategies(ctx)
     ctx.cov["features"] = feat
     ctx.cov["rule"] = ("random multi-line searcher cases (needles touching/spanning the terminator, anchored needles = "
@@ -206,6 +207,57 @@ def inverted_partition(ctx, feat):
 
 def vlib_to_text(v):
     return repr(v)
+
+
+def null_data_cli(ctx):
+    """rg -U --null-data: records are separated by NUL; the records reported are exactly those overlapped by the matches
+    of the pattern over the whole input (expected from Python's re on the same bytes; ASCII patterns whose meaning is
+    the same in both engines)"""
+    import os
+    import re
+    import subprocess
+    import tempfile
+    rng = ctx.rng
+    pool = [("foo[^x]bar", []), ("a.b", ["--multiline-dotall"]), ("a\\x00b", []), ("r[^a-z]+s", []), ("end\\x00?", [])]
+    toks = [b"foo", b"bar", b"a", b"b", b"x", b"r", b"s", b"end", b"foo bar", b"a\nb", b""]
+    runs = 0
+    with tempfile.TemporaryDirectory(dir=vlib.CACHE) as d:
+        for i in range(ctx.count(24)):
+            recs = [rng.choice(toks) for _ in range(rng.randint(2, 8))]
+            if i == 0:
+                recs = [b"foo", b"bar", b"zzz"]
+            data = b"\0".join(recs) + (b"\0" if rng.random() < 0.8 else b"")
+            pat, extra = pool[i % len(pool)]
+            pyflags = re.S if extra else 0
+            pypat = pat.replace("\\x00", "\\x00").encode()
+            f = os.path.join(d, "n%d" % i)
+            open(f, "wb").write(data)
+            starts = [0]
+            for r_ in recs[:-1]:
+                starts.append(starts[-1] + len(r_) + 1)
+            nrec = len(recs) if (recs[-1] != b"" or not data.endswith(b"\0")) else len(recs)
+            covered = set()
+            for m in re.finditer(pypat, data, pyflags):
+                a, b = m.start(), max(m.start(), m.end() - 1)
+                for k, st in enumerate(starts):
+                    en = st + len(recs[k])          # position of the record's terminator (or end of input)
+                    if st <= b and a <= en and not (k == len(recs) - 1 and recs[k] == b"" and data.endswith(b"\0")):
+                        covered.add(k + 1)
+            for mode in ("--mmap", "--no-mmap"):
+                p = subprocess.run([vlib.RG, "--no-config", "--color", "never", "--no-heading", "-I", "-n", "-a", "-U", "--null-data", mode]
+                                   + extra + ["-e", pat, f], stdin=subprocess.DEVNULL, stdout=subprocess.PIPE, stderr=subprocess.PIPE)
+                runs += 1
+                got = set()
+                for piece in p.stdout.split(b"\0"):
+                    mm = re.match(rb"^(\d+):", piece)
+                    if mm:
+                        got.add(int(mm.group(1)))
+                ctx.note_case("nul%d%s" % (i, mode), bool(covered))
+                if got != covered:
+                    ctx.violation("rg -U --null-data does not report exactly the records overlapped by the pattern's matches over the whole input",
+                                  dict(kind="cli-null-data", pattern=pat, flags=extra + [mode], data_hex=data.hex(), expected=sorted(covered), got=sorted(got),
+                                       stdout=repr(p.stdout[:300])))
+    ctx.cov["cli_null_data_runs"] = runs
 
 
 def cli_strategies(ctx):
